@@ -7,6 +7,7 @@ M for C13 — libcoap's global lock (`global_lock`), transcribed from
                                              coap_lock_callback_ret, coap_lock_callback_release,
                                              coap_lock_callback_ret_release (coap_lock_invert has the body of
                                              coap_lock_callback_release)
+  src/coap_io.c                              the release window of coap_io_process_with_fds_lkd (`Cb.win`)
   include/coap3/coap_mutex_internal.h        coap_mutex_lock/unlock/trylock = pthread mutex, coap_thread_pid
 
 Core Lean only.  Conventions (FRAMEWORK.md §3): every C quantity is a `Nat`; `uint32_t` arithmetic is `% 2^32`
@@ -125,12 +126,18 @@ def lockFunc (rc : Bool) (t : Tid) (g : G) : Option G :=
       | some _ => none                           -- coap_mutex_lock() blocks (also on the caller's own mutex)
       | none => some (acquire g)
 
-/-- the four callback macros -/
+/-- the four callback macros, and the *release window* of an internal function: library code that is entered with
+the lock held gives it up around a blocking wait and takes it again before it goes on
+(`coap_lock_unlock(ctx); nfds = epoll_wait(…); coap_lock_lock(ctx, return -1);` in coap_io_process_with_fds_lkd).
+`window(body)` = `cbIn win; body; cbOut win`: the body runs without the lock, so — like application code inside a
+`…_release` callback — it may touch library state only through the public API (that the bodies of the tree's windows
+touch nothing at all is the T1 fact `LockFn.quiet`). -/
 inductive Cb where
   | keep      -- coap_lock_callback(c, func)
   | ret       -- coap_lock_callback_ret(r, c, func)
   | rel       -- coap_lock_callback_release(c, func, failed)   (and coap_lock_invert)
   | retRel    -- coap_lock_callback_ret_release(r, c, func, failed)
+  | win       -- coap_lock_unlock(c); <body>; coap_lock_lock(c, failed)      (release window, no application callback)
   deriving DecidableEq, Repr
 
 def Cb.releases : Cb → Bool
@@ -138,6 +145,7 @@ def Cb.releases : Cb → Bool
   | .ret => false
   | .rel => true
   | .retRel => true
+  | .win => true
 
 /-- `coap_lock_check_locked(c)`: `assert(coap_thread_pid == global_lock.pid)` -/
 def checkLocked (t : Tid) (g : G) : G := g.assert (selfPid t == g.pid)
@@ -149,19 +157,22 @@ coap_lock_callback_ret(r,c,func):      coap_lock_check_locked(c); global_lock.in
 coap_lock_callback_release(c,func,f):  coap_lock_check_locked(c); coap_lock_unlock(c);                func; …
 coap_lock_callback_ret_release(…):     coap_lock_check_locked(c); coap_lock_unlock(c);          (r) = func; …
 ```
-(`coap_lock_unlock(c)` is `assert(c); coap_lock_unlock_func();`, `c` is never NULL at the call sites.) -/
-def cbBefore (t : Tid) (k : Cb) (g : G) : G :=
-  let g := checkLocked t g
+(`coap_lock_unlock(c)` is `assert(c); coap_lock_unlock_func();`, `c` is never NULL at the call sites.)
+A release window opens with the bare `coap_lock_unlock(c)` (no coap_lock_check_locked). -/
+def cbBefore (t : Tid) (k : Cb) (g0 : G) : G :=
+  let g := checkLocked t g0
   match k with
   | .keep => { g with inCb := u32 (g.inCb + 1) }
   | .ret => { g with inCb := u32 (g.inCb + 1) }
   | .rel => unlockFunc t g
   | .retRel => unlockFunc t g
+  | .win => unlockFunc t g0
 
 /-- the part of a callback macro executed *after* `func` (`none` = blocks in coap_lock_lock):
 ```
 coap_lock_callback / _ret:                   …; global_lock.in_callback--;
 coap_lock_callback_release / _ret_release:   …; coap_lock_lock(c,failed);
+release window:                              …; coap_lock_lock(c,failed);
 ``` -/
 def cbAfter (rc : Bool) (t : Tid) (k : Cb) (g : G) : Option G :=
   match k with
@@ -169,10 +180,12 @@ def cbAfter (rc : Bool) (t : Tid) (k : Cb) (g : G) : Option G :=
   | .ret => some { g with inCb := u32 (g.inCb + 4294967295) }
   | .rel => lockFunc rc t g
   | .retRel => lockFunc rc t g
+  | .win => lockFunc rc t g
 
 /-- What a thread does, as a flat token sequence (a well-nested program is a Dyck-like word, see `wn`):
 `lock` = entry of a `COAP_API` wrapper (`coap_lock_lock(c, return …)`), `unlock` = its exit,
-`cbIn k`/`cbOut k` = the halves of callback macro `k` around the application's function. -/
+`cbIn k`/`cbOut k` = the halves of callback macro `k` around the application's function; `cbIn win`/`cbOut win` =
+the `coap_lock_unlock` / `coap_lock_lock` that open and close a release window inside library code. -/
 inductive Tok where
   | lock
   | unlock
@@ -330,6 +343,27 @@ structure ApiSite where
   deriving DecidableEq, Repr
 
 def ApiSite.bracketed (s : ApiSite) : Bool := s.locks && s.callsLkd && s.unlocks
+
+/-- one function of the compiled sources that releases / takes the global lock itself (extract/lockbal.py):
+the lock depth relative to the function's entry, followed along every path of its statement tree -/
+structure LockFn where
+  file : String
+  name : String
+  api : Bool             -- a `COAP_API` function
+  entryHeld : Bool       -- entered with the lock held (it releases below its entry level / asserts the lock)
+  unlocks : Nat          -- coap_lock_unlock sites
+  locks : Nat            -- coap_lock_lock sites
+  cbRelease : Nat        -- coap_lock_callback_release / _ret_release / coap_lock_invert sites
+  windows : Nat          -- sites that leave the entry level (open a release window / a locked region)
+  exitsBalanced : Bool   -- every `return` and the end of the function are reached at the entry level
+  loopsBalanced : Bool   -- every loop back-edge is at a level the loop was entered with
+  failLeaves : Bool      -- the failure action of every coap_lock_lock / callback-release macro leaves the function
+  ordered : Bool         -- no unlock while released, no lock while taken, no lock macro / assertion inside a window
+  quiet : Bool           -- inside a release window nothing touches library state (no `_lkd` call, no `ctx->…`)
+  deriving DecidableEq, Repr
+
+def LockFn.balanced (f : LockFn) : Bool :=
+  f.exitsBalanced && f.loopsBalanced && f.failLeaves && f.ordered && f.quiet
 
 /-- one invocation of an application-supplied function pointer in a compiled source file -/
 structure CbSite where
